@@ -85,7 +85,7 @@ PROPS = {
         'assumptions': ['the hand-written Model/Cpu.lean mirrors the Rust handlers (checked by the correspondence run on every case); only its dispatch tables are regenerated from source'],
     },
     'C20': {
-        'lean': ['H8.Props.C20', 'H8.Props.C19', 'H8.Props.C20R', 'H8.Props.C20M', 'H8.Props.C20X', 'H8.Props.C20Y', 'H8.Props.C20Z'],
+        'lean': ['H8.Props.C20', 'H8.Props.C19', 'H8.Props.C20R', 'H8.Props.C20M', 'H8.Props.C20X', 'H8.Props.C20Y', 'H8.Props.C20Z', 'H8.Props.C20E'],
         'gen': ['consts', 'buscost', 'busmap', 'dispatch'],
         'runs': [{'mode': 'step', 'shards': 16}],
         'rule': 'single-step cases on the real Cpu (fetch+exec through the verif hook) from a tagged background memory (every byte = hash of its address) with the full register file, CCR, PC, cost and the complete delta of all five stores compared: per form of spec/isa.tbl every combination of the register fields (x2), all 256 initial CCR values, every value of immediate/bit/condition fields, seeded random instances with boundary-value register files and operand addresses at both ends of on-chip RAM, DRAM and the vector area; six bus-controller settings under which every (area, kind) cost is distinct; only the charge is compared. distinct non-trivial = distinct (form, first instruction bytes, resulting register file) triples of in-domain cases.',
